@@ -186,7 +186,7 @@ def class_candidates_for(E, oid, name):
     if gkey in p.ghost:
         return p.ghost[gkey]
     c = E.classes.cls_of(oid)
-    known = [K for K in E.classes.known() if isinstance(K, type)]
+    known = [K for K in (getattr(E, 'class_snapshot', None) or E.classes.known()) if isinstance(K, type)]
     groups = {}
     for K in known:
         st = static_lookup(K, name)
@@ -324,7 +324,7 @@ def getattr_(E, obj, name, node=None):
         with E.assuming(isobj):
             r = object_getattr(E, obj, name, node)
         if E.fail_conds is not None:
-            E.fail_conds.append((z3.And(*(E.scope_names + [z3.Not(z3.Or(isobj, iscls, V.is_VDatetime(t)))])), AttributeError, name))
+            E.fail_conds.append((z3.And(*(E.scopes + [z3.Not(z3.Or(isobj, iscls, V.is_VDatetime(t)))])), AttributeError, name))
         if isinstance(r, (I.T, I.C)):
             return E.ite(isobj, r, I.T(V.VAbsent))
         raise _I().Unsupported('attribute %s of a value of undetermined kind in a specification' % name)
@@ -483,7 +483,7 @@ def merged_object_getattr(E, obj, name, node, cands, sym):
                 v = resolve_static(E, obj, name, st, ks, node)
             except I.PyRaise as pr:
                 if E.fail_conds is not None:
-                    E.fail_conds.append((z3.And(*(E.scope_names)), pr.exc.cls, name))
+                    E.fail_conds.append((z3.And(*(E.scopes)), pr.exc.cls, name))
                 v = None
         alts.append((cond, v))
     if sym:
@@ -494,13 +494,13 @@ def merged_object_getattr(E, obj, name, node, cands, sym):
                 v = hook(obj, name, node, []) if hook is not None else None
             except I.PyRaise as pr:
                 if E.fail_conds is not None:
-                    E.fail_conds.append((z3.And(*(E.scope_names)), pr.exc.cls, name))
+                    E.fail_conds.append((z3.And(*(E.scopes)), pr.exc.cls, name))
                 v = None
             except I.Unsupported:
                 # the attribute of an instance of an unknown generated class is not
                 # determined: the specification is silent there (guarded failure)
                 if E.fail_conds is not None:
-                    E.fail_conds.append((z3.And(*(E.scope_names)), AttributeError, name))
+                    E.fail_conds.append((z3.And(*(E.scopes)), AttributeError, name))
                 v = None
         alts.append((cond, v))
     res = None
